@@ -72,6 +72,10 @@ CLAIMED = {
     text="specs/Constness.tla is a transition system over static descriptions of expressions (category: view, iterator, elements range, elements iterator, cursor, element; dimensionality; writable?) with the rule w' = w and not ConstForcing(step); TLC checks NoEscalation on it and enumerates every access path of bounded length from 9 start kinds (array, static_array, array_ref, each const and non-const; views held by auto&&, by auto const&, and views of const arrays held by auto&&) in dimensionalities 1..3 with the prescribed writability; each path becomes a C++ expression over std::declval whose type is observed at compile time with the detection idiom: is an element reached through it (chained brackets, *elements().begin(), home() cursor, nested *begin()) assignable; read-only paths must offer no assignable element, writable paths must; plus the fixed facts (views and array_ref have no reextent/clear, a named view cannot be copy-constructed).",
     note="bounded: paths of length <= 2 (3 in thorough, sampled above 120k), D 1..3; a path that is ill-formed for its start type is not judged; 'accepts assignment/fill/swap' is judged at element level only (an operator= whose declaration is well-formed but whose body would fail cannot be seen by the detection idiom).",
     ref="DESIGN.md section 5 C16", tech="TLA+ transition system enumerated by TLC; each path replayed as a compile-time observation of the implementation's types"),
+ "C14": dict(
+    text="specs/LapackGen.tla enumerates the case lattice (routine x orientation x padding x triangle x shape x sizes x element type); the replayer builds exactly representable data (L*L^H with integer/Gaussian-integer L and power-of-two diagonal, optional planted non-positive pivot, garbage in the triangle/padding that must not be read; small integer matrices for geqrf/gesvd), calls potrf/geqrf/gesvd through the adaptor and logs whole guarded buffers before and after in fixed point; the TLA+ monitor specs/Lapack.tla prescribes the cell of every view element from the descriptor and checks per record: potrf returns the leading k x k block with k computed by exact integer Cholesky, the factor reproduces the selected triangle exactly, the other triangle, padding and guards are unchanged; geqrf: R upper trapezoidal, reflectors orthogonal, H1..Hk R = A0 within 1/16; gesvd: A0 = U diag(s) W with W = V^T, s non-negative non-increasing, U and W orthogonal within 2^-6; only documented outputs change.",
+    note="sizes 1..4 (6 thorough), element types d,z (s,d,c,z thorough); rounding-level accuracy is delegated to LAPACK (tolerances far above rounding, far below the O(1) error of a wrong triangle/stride); syev.hpp does not compile at the pinned commit (open finding) and getrf is excluded by the property; LAPACK call arguments are not intercepted (frame decided from buffers).",
+    ref="DESIGN.md section 5 C14", tech="TLC-enumerated case lattice executed in the implementation; recorded inputs/outputs validated by the TLA+ monitor Lapack.tla (exact integer / fixed-point arithmetic)"),
 }
 
 props = [json.loads(l) for l in open(os.path.join(V, "properties.jsonl"))]
